@@ -468,6 +468,9 @@ Fixpoint reach_walk (fuel : nat) (sp : spec) (goal : nat) (work visited : list n
 Definition can_be_reentered (sp : spec) (name : nat) : bool :=
   reach_walk (S (length sp + sum_out sp + length (outbound sp name))) sp name (outbound sp name) [].
 
+(* task_ex.executions non-empty: the task has started at least once *)
+Definition has_execs (s : st) (tid : nat) : bool := existsb (fun a => Nat.eqb (a_task a) tid) (acts s).
+
 (* returns the state, the task id, and whether a workflow completion check is registered *)
 Definition defer (sp : spec) (s : st) (name : nat) (trig : option nat) : st * nat * bool :=
   match find_join_exec s name true with
@@ -476,12 +479,14 @@ Definition defer (sp : spec) (s : st) (name : nat) (trig : option nat) : st * na
     match find_join_exec s name false with
     | Some tid =>
       (* existing and not WAITING: back to WAITING only if it completed before (F7a fix: a join
-         that is still running is left alone), it lies on a cycle (F7b fix: otherwise a late
-         inbound branch of a partial join would run it again) and the trigger is not one that
-         already triggered its previous run (F7c fix: recalculated commands, e.g. on resume);
-         a completed join that is not re-armed registers a workflow completion check *)
-      if is_completed (t_state (get_task s tid)) && can_be_reentered sp name
-         && negb (triggered_by_known (get_task s tid) trig)
+         that is still running is left alone) and either never started (its preconditions are
+         evaluated again, e.g. after the rerun of a failed inbound task) or it lies on a cycle
+         (F7b fix: otherwise a late inbound branch of a partial join would run it again) and the
+         trigger is not one that already triggered its previous run (F7c fix: recalculated
+         commands, e.g. on resume); a completed join that is not re-armed registers a workflow
+         completion check *)
+      if is_completed (t_state (get_task s tid)) &&
+         (negb (has_execs s tid) || (can_be_reentered sp name && negb (triggered_by_known (get_task s tid) trig)))
       then (task_set_state s tid WAITING, tid, false)
       else (s, tid, is_completed (t_state (get_task s tid)))
     | None => (add_task s (mkTrow name WAITING false [] false false true (next_uid s) (trig_list trig)),
@@ -653,7 +658,9 @@ Definition mark_processed (s : st) : st :=
        (acts s) (calls s) (pend s) (uids s).
 
 Definition continue_workflow_cmds (sp : spec) (t : tx) (cmds : list cmd) : result :=
-  let cmds := filter (fun c => match c with CSetState PAUSED => false | _ => true end) cmds in
+  (* 'pause' commands are dropped, and (F16 fix) 'noop' commands too, so that commands starting
+     nothing do not bypass the completion check *)
+  let cmds := filter (fun c => match c with CSetState PAUSED => false | CNoop => false | _ => true end) cmds in
   let s := mark_processed (fst t) in
   match cmds, backlog s with
   | [], [] => match check_and_complete s with
